@@ -1044,4 +1044,141 @@ theorem no_upward_leak_history (W : View) :
       (ValidView_step σ W hW c) (fun c' h' => hall c' (List.mem_cons_of_mem _ h')) hu.2]
     exact step_untouched σ hwf hs W hW c hu.1
 
+/-! ## the full statement, and where the code as it is falls short of it -/
+
+/-- **Full statement** (sentence 1 of the property over all histories): after any history from a
+    fresh root, every view reads exactly as the layered store of the property text would read
+    after the same history — every write and deletion made through the views above it, overlaid
+    from the most basic class down to the view. -/
+def C17_Full : Prop :=
+  ∀ (init : List (Key × Val)) (cmds : List Cmd) (v : View) (k : Key), (∀ c ∈ cmds, CmdOK c) →
+    visible (run (initState init) cmds).1 v k
+      = Spec.visible (Spec.run (abs (initState init)) cmds) v k
+
+def kA : Key := ['a']
+
+/-- KF-C17-a: `instance.properties.clear()` forgets the instance's own deletion of a key the
+    class does not show; when the class later defines the key it shows through the instance -/
+def witnessClear : List Cmd :=
+  [.newInst 0, .op (.inst 0) (.setitem kA (.int 1)), .op (.inst 0) (.delitem kA),
+   .op (.inst 0) .clear, .op (.cls 0) (.setitem kA (.int 2))]
+
+theorem witnessClear_model : visible (run (initState []) witnessClear).1 (.inst 0) kA = some (.int 2) := by
+  decide
+
+theorem witnessClear_spec :
+    Spec.visible (Spec.run (abs (initState [])) witnessClear) (.inst 0) kA = none := by
+  decide
+
+theorem C17_full_fails : ¬ C17_Full := by
+  intro h
+  have := h [] witnessClear (.inst 0) kA (by intro c hc; simp [witnessClear] at hc; rcases hc with rfl | rfl | rfl | rfl | rfl <;> trivial)
+  rw [witnessClear_model, witnessClear_spec] at this
+  exact absurd this (by decide)
+
+def kS : Key := ['s']
+def kT : Key := ['t']
+def kB : Key := ['b']
+
+/-- KF-C17-b: one `Properties` object handed to a second class — a write through the new class
+    shows through the class that owned the object first -/
+def witnessShared : List Cmd := [.usingShared 0 0, .op (.cls 1) (.setitem kT (.int 2))]
+
+theorem C17_full_fails_shared :
+    visible (run (initState [(kS, .int 1)]) witnessShared).1 (.cls 0) kT = some (.int 2) ∧
+    Spec.visible (Spec.run (abs (initState [(kS, .int 1)])) witnessShared) (.cls 0) kT = none := by
+  decide
+
+/-- KF-C17-c: `class X(A, B)` where `B` restarts `properties` and `A` does not — `A`'s write is
+    above `X` in its chain but does not show through `X` -/
+def witnessMI : List Cmd :=
+  [.subclass 0, .usingProps 0 [], .op (.cls 1) (.setitem kB (.int 1)), .subclassMI [1, 2, 0]]
+
+theorem C17_full_fails_mi :
+    visible (run (initState []) witnessMI).1 (.cls 3) kB = none ∧
+    Spec.visible (Spec.run (abs (initState [])) witnessMI) (.cls 3) kB = some (.int 1) := by
+  decide
+
+instance (σ : State) (W V : View) : Decidable (Inherits σ W V) := by
+  cases V <;> unfold Inherits <;> infer_instance
+instance : DecidablePred CmdOK := fun c => by cases c <;> unfold CmdOK <;> infer_instance
+instance : DecidablePred NoSharing := fun c => by cases c <;> unfold NoSharing <;> infer_instance
+
+/-- the invariants hold in every state reached from a fresh root -/
+theorem inv_run : ∀ (cmds : List Cmd) (σ : State), WF σ → NoShared σ →
+    (∀ c ∈ cmds, CmdOK c ∧ NoSharing c) → WF (run σ cmds).1 ∧ NoShared (run σ cmds).1
+  | [], _, hwf, hs, _ => ⟨hwf, hs⟩
+  | c :: cs, σ, hwf, hs, hall => by
+    have hc := hall c (List.mem_cons_self ..)
+    simp only [run]
+    exact inv_run cs _ (WF_step σ hwf c hc.1) (NoShared_step σ hwf hs c hc.2)
+      (fun c' h' => hall c' (List.mem_cons_of_mem _ h'))
+
+theorem WF_run (cmds : List Cmd) (σ : State) (hwf : WF σ) (hall : ∀ c ∈ cmds, CmdOK c) :
+    WF (run σ cmds).1 := by
+  induction cmds generalizing σ with
+  | nil => exact hwf
+  | cons c cs ih =>
+    simp only [run]
+    exact ih _ (WF_step σ hwf c (hall c (List.mem_cons_self ..))) (fun c' h' => hall c' (List.mem_cons_of_mem _ h'))
+
+/-- `read_is_overlay` really needs `Coherent`: in the (well-formed) state reached by `witnessMI`
+    class 3 does not read as the overlay of its chain -/
+theorem read_is_overlay_fails_mi :
+    ¬ ∀ (σ : State) (c : ClassId), WF σ → visible σ (.cls c) = Spec.visible (abs σ) (.cls c) := by
+  intro h
+  have hwf : WF (run (initState []) witnessMI).1 :=
+    WF_run witnessMI _ (WF_initState []) (by decide)
+  have := congrFun (h _ 3 hwf) kB
+  revert this
+  decide
+
+/-! ## non-vacuity: the hypotheses of the main theorems hold in concrete, non-trivial stores -/
+
+def kK : Key := ['k']
+
+/-- R(0) ← A(1) ← B(2), sibling A2(3) of A, a detached class D(4) below A, two instances of B,
+    one instance of A2, one detached instance of B -/
+def exCmds : List Cmd :=
+  [.subclass 0, .withProps 1 [(kB, .int 5)], .subclass 0, .usingProps 1 [(kT, .none)],
+   .newInst 2, .newInst 2, .newInst 3, .newInstWith 2 [(kS, .int 7)],
+   .op (.cls 1) (.setitem kA (.int 1)), .op (.inst 0) (.delitem kK)]
+
+def exState : State := (run (initState [(kK, .int 0)]) exCmds).1
+
+theorem exState_inv : WF exState ∧ NoShared exState :=
+  inv_run exCmds _ (WF_initState _) (NoShared_initState _) (by decide)
+
+/-- `no_upward_leak`: a `pop` through class A is not seen by the sibling A2 nor its instance … -/
+example : visible (step exState (.op (.cls 1) (.pop kK none))).1 (.cls 3) = visible exState (.cls 3) :=
+  no_upward_leak exState exState_inv.2 (.cls 1) (.cls 3) _ (by decide)
+example : visible (step exState (.op (.cls 1) (.pop kK none))).1 (.inst 2) = visible exState (.inst 2) :=
+  no_upward_leak exState exState_inv.2 (.cls 1) (.inst 2) _ (by decide)
+/-- … while it does change what A itself shows (the theorem is not about a no-op) -/
+example : visible (step exState (.op (.cls 1) (.pop kK none))).1 (.cls 1) kK = none ∧
+    visible exState (.cls 1) kK = some (.int 0) := by decide
+/-- an instance operation is invisible to the other instance of the same class and to the class -/
+example : visible (step exState (.op (.inst 0) .clear)).1 (.inst 1) = visible exState (.inst 1) :=
+  no_upward_leak exState exState_inv.2 (.inst 0) (.inst 1) _ (by decide)
+
+/-- `read_is_overlay`: class B is coherent; its chain has three layers -/
+example : Coherent exState 2 := ⟨0, by decide, by decide⟩
+example : (chain (abs exState) 2).length = 3 := by decide
+example : visible exState (.cls 2) = Spec.visible (abs exState) (.cls 2) :=
+  read_is_overlay_class exState exState_inv.1 2 ⟨0, by decide, by decide⟩
+
+/-- `write_visible_below`: key `k` written through the root is seen through B (two levels down) … -/
+example : Unshadowed exState 2 0 kK := ⟨[2, 1], 0, by decide, by decide, by decide⟩
+example : visible (step exState (.op (.cls 0) (.setitem kK (.int 9)))).1 (.cls 2) kK = some (.int 9) := by
+  rw [write_visible_below exState exState_inv.1 2 0 (by decide) kK _ ⟨[2, 1], 0, by decide, by decide, by decide⟩]
+  decide
+/-- … but not through instance 0 of B, which deleted `k` itself (shadowed): the hypothesis matters -/
+example : visible (step exState (.op (.cls 0) (.setitem kK (.int 9)))).1 (.inst 0) kK = none := by decide
+
+/-- `detached`: instance 3 was created with `properties={…}` -/
+example : visible exState (.inst 3) kS = some (.int 7) ∧ visible exState (.inst 3) kK = none := by decide
+
+/-- `dict_semantics`: `setdefault` on a key deleted at this level revives it (fix f6834ef) -/
+example : (step exState (.op (.inst 0) (.setdefault kK (.int 4)))).2 = .val (.int 4) := by decide
+
 end Flatland.C17.Proofs
